@@ -53,6 +53,8 @@ pub struct SinkState {
     pub dropped: bool,
     pub writes_after_eof: u32,
     pub zero_progress_writes: u32,
+    /// the peer's window is closed: writes accept nothing, wait_writable pends (no choice)
+    pub blocked: bool,
 }
 
 pub struct Env {
@@ -215,6 +217,10 @@ impl Future for WaitFut<'_> {
         let i = self.idx;
         e.progress += 1;
         let what = if self.flush { "flush" } else { "wait_writable" };
+        if e.sinks[i].blocked {
+            e.sinks[i].waker = Some(cx.waker().clone());
+            return Poll::Pending;
+        }
         let held = if self.flush { e.sinks[i].flush_held } else { e.sinks[i].writable_held };
         if held && !e.sinks[i].released {
             e.sinks[i].waker = Some(cx.waker().clone());
@@ -276,6 +282,10 @@ impl VSink for ScriptedSink {
         e.progress += 1;
         if e.sinks[i].eof_at.is_some() {
             e.sinks[i].writes_after_eof += 1;
+        }
+        if e.sinks[i].blocked {
+            e.log.push(format!("{}:write0/{}(blocked)", NAMES_SINK[i], data.len()));
+            return Ok(data);
         }
         let mut alts = vec!["all"];
         if e.allow_partial && data.len() > 1 {
@@ -387,5 +397,17 @@ pub fn release(env: &Shared, name: &str) {
         if name == format!("wake:{}", NAMES_SINK[i]) {
             g.sinks[i].released = true;
         }
+    }
+}
+
+/// close / reopen the window of sink `i`; reopening wakes a pending wait_writable
+pub fn set_blocked(env: &Shared, i: usize, blocked: bool) {
+    let w = {
+        let mut g = env.lock().unwrap();
+        g.sinks[i].blocked = blocked;
+        if blocked { None } else { g.sinks[i].waker.take() }
+    };
+    if let Some(w) = w {
+        w.wake();
     }
 }
